@@ -145,3 +145,52 @@ def filepath_rule(ctx, rule, only=None):
                    '`%s`: %s; chunks whose file_path stays unset are, per the format, in the metadata '
                    'file itself' % (norm(st)[:90], why), m.loc(st))
     return n
+
+
+def filepath_text_rule(ctx, rule, only=None):
+    """`file_path` of a chunk parsed from a footer is bytes; only the first chunk of every row group is decoded when a
+    handle is built (ParquetFile._parse_header).  A value use of `<chunk>.file_path` for a chunk other than
+    `columns[0]` - joining it to a directory, formatting it, handing it to a path helper - therefore decodes it or tests
+    its type first; tests for None / emptiness are fine as they are."""
+    n = 0
+    for m, q, f in ctx.repo.functions():
+        if m.name == 'cencoding' or (only and m.name not in only):
+            continue
+        parents = {}
+        for x in ast.walk(f):
+            for ch in ast.iter_child_nodes(x):
+                parents[ch] = x
+        for a in walk_no_nested(f):
+            if not (isinstance(a, ast.Attribute) and a.attr == 'file_path' and isinstance(a.ctx, ast.Load)):
+                continue
+            base = norm(a.value)
+            if base.endswith('.columns[0]') or base.endswith('columns[0]'):
+                continue
+            n += 1
+            p = parents.get(a)
+            ok, why = False, ''
+            # only tested
+            if isinstance(p, (ast.If, ast.While, ast.BoolOp, ast.UnaryOp, ast.IfExp)) and (getattr(p, 'test', None) is a or isinstance(p, (ast.BoolOp, ast.UnaryOp))):
+                ok, why = True, 'only tested'
+            if isinstance(p, ast.Compare) and all(isinstance(c_, ast.Constant) and c_.value is None for c_ in p.comparators):
+                ok, why = True, 'compared with None'
+            if isinstance(p, ast.Call) and norm(p.func) == 'isinstance':
+                ok, why = True, 'type test'
+            if isinstance(p, ast.Call) and norm(p.func) in ('ensure_str', 'util.ensure_str'):
+                ok, why = True, 'ensure_str'
+            if isinstance(p, ast.Attribute) and p.attr == 'decode':
+                ok, why = True, 'decoded'
+            # the str arm of a conditional expression / statement that tests its type
+            x = a
+            while x in parents and not ok:
+                px = parents[x]
+                if isinstance(px, ast.IfExp) and 'isinstance(%s, str)' % norm(a) in norm(px.test) and px.body is x:
+                    ok, why = True, 'str arm of a type test'
+                if isinstance(px, ast.If) and 'isinstance(%s, str)' % norm(a) in norm(px.test) and any(x is b or any(x is y for y in ast.walk(b)) for b in px.body):
+                    ok, why = True, 'str arm of a type test'
+                x = px
+            ctx.ob(rule, '%s.%s:file_path-of-an-arbitrary-chunk-is-decoded-before-use:%s' % (m.name, q, norm(parents.get(a, a))[:50]), ok,
+                   '`%s` in `%s`: parsed chunks carry bytes paths (only columns[0] is decoded when the handle is built); str() of bytes '
+                   'gives "b\'...\'"' % (norm(a), norm(parents.get(a, a))[:80]), m.loc(a))
+    ctx.note('%s: value uses of file_path on chunks other than columns[0]: %d' % (rule, n))
+    return n
